@@ -1,741 +1,26 @@
 /-
-  LzProofs.GenProps — the hand-written model equals the code that `tools/extract -code`
-  regenerates from the Go source (`LzModel/Generated/Code.lean`, namespace `LZ.Gen`).
+  LzProofs.GenProps — umbrella of the GenProps topic files (the former single file was split so
+  that a Go function the translator refuses only takes down its own topic).
 
-  Every theorem below quantifies over ALL inputs.  `Code.lean` is regenerated on every
-  check, so a changed comparison operator, a swapped branch, a dropped check or a changed
-  constant in one of the translated Go functions makes the theorem named after that
-  function fail to compile.  Go `int`/`int64` are unbounded `Int` on both sides (overflow is
-  out of scope); `uint32`/`uint64` wrap around (`UInt32`/`UInt64`).
-
-  Index (G-numbers are referred to by NOTES.md):
-    G01 gen_iverson   G02 gen_doz / gen_doz_toNat   G03 gen_min
-    G04 gen_hashValue_mod / gen_hashValue / gen_hashValue_verified   G05 gen_xzCost
-    G06 gen_seqLen    G07 gen_blockLen
-    G08 gen_bufDefaults   G09 gen_bufVerify (+ gen_bufVerify_error1..4)
-    G10 gen_hashDefaults  G11 gen_hashVerify (+ gen_hashVerify_error1/2)
-    G12 gen_dhDefaults    G13 gen_dhVerify
-    G14 gen_bucketDefaults G15 gen_bucketVerify
-    G16 gen_setDefaults_<K>  G17 gen_verify_<K>  G18 gen_accepted_<K>   for the seven kinds
-    G19 gen_setDefaults / gen_verify  (all kinds at once, on the union record `Cfg`)
-    G20 gen_decDefaults  G21 gen_decVerify  G22 gen_decCfg
+  Index (G-numbers are referred to by NOTES.md); every theorem is in namespace `LZ.GenProps`:
+    GenPropsInts     G01 gen_iverson   G02 gen_doz / gen_doz_toNat   G03 gen_min
+    GenPropsHash     G04 gen_hashValue_mod / gen_hashValue / gen_hashValue_verified
+    GenPropsCost     G05 gen_xzCost
+    GenPropsLen      G06 gen_seqLen    G07 gen_blockLen
+    GenPropsCfgBuf   G08 gen_bufDefaults   G09 gen_bufVerify (+ gen_bufVerify_error1..4)
+    GenPropsCfgHash  G10 gen_hashDefaults  G11 gen_hashVerify (+ gen_hashVerify_error1/2)
+                     G12 gen_dhDefaults    G13 gen_dhVerify
+    GenPropsCfgBucket G14 gen_bucketDefaults G15 gen_bucketVerify
+    GenPropsCfg<K>   G16 gen_setDefaults_<K>  G17 gen_verify_<K>  G18 gen_accepted_<K>
+                     for K = HP, BHP, DHP, BDHP, BUP, GSAP (+ gen_verify_GSAP_errors), OSAP
+    GenPropsCfgAll   G19 gen_setDefaults / gen_verify  (all kinds at once, on the union record `Cfg`)
+    GenPropsDec      G20 gen_decDefaults  G21 gen_decVerify  G22 gen_decCfg
+    GenPropsCfg      umbrella of the GenPropsCfg* files
+    GenPropsBase     shared lemmas (bufVerify_iff, hashVerify_iff, seq_ok, chk_ok, hashBits_domain, …)
 -/
-import LzModel.Generated.Code
-import LzModel.Basic
-import LzModel.Config
-import LzModel.Hash
-import LzModel.Sap
-import LzModel.DecBuf
-
-set_option linter.unusedSimpArgs false
-
-namespace LZ.GenProps
-open LZ
-
-/-! ## ints.go -/
-
-theorem iand_zero (a : Int) : Gen.iand a 0 = 0 := by
-  cases a with
-  | ofNat m => show Int.ofNat (m &&& 0) = 0; simp
-  | negSucc m =>
-    show Int.ofNat (Nat.bitwise (fun a b => !a && b) m 0) = 0
-    unfold Nat.bitwise
-    simp
-
-theorem iand_neg_one (a : Int) : Gen.iand a (-1) = a := by
-  cases a with
-  | ofNat m =>
-    show Int.ofNat (Nat.bitwise (fun a b => a && !b) m 0) = Int.ofNat m
-    unfold Nat.bitwise
-    simp
-    split <;> simp_all
-  | negSucc m => show Int.negSucc (m ||| 0) = Int.negSucc m; simp
-
-/-- G01 -/
-theorem gen_iverson (b : Bool) : Gen.iverson b = if b then 1 else 0 := by
-  cases b <;> rfl
-
-/-- G02 `doz` is the positive difference or zero -/
-theorem gen_doz (x y : Int) : Gen.doz x y = if x ≥ y then x - y else 0 := by
-  unfold Gen.doz
-  rw [gen_iverson]
-  by_cases h : x ≥ y
-  · simp only [h, decide_true, if_true]; exact iand_neg_one _
-  · simp only [h, decide_false, if_false]; exact iand_zero _
-
-/-- G02 … i.e. truncated subtraction -/
-theorem gen_doz_toNat (x y : Int) : Gen.doz x y = ((x - y).toNat : Int) := by
-  rw [gen_doz]; split <;> omega
-
-/-- G03 -/
-theorem gen_min (x y : Int) : Gen.min x y = min x y := by
-  unfold Gen.min
-  rw [gen_doz]
-  split <;> omega
-
-/-! ## hash.go: hashValue -/
-
-theorem prime_eq : (9920624304325388887 : UInt64) = prime64 := by
-  unfold prime64 Facts.prime; rfl
-
-/-- `h.shift = 64 - uint(hashBits)` (hash.init) in `uint` arithmetic -/
-theorem shift_eq (hb : Nat) (h : hb ≤ 64) : (64 : UInt64) - UInt64.ofNat hb = UInt64.ofNat (64 - hb) := by
-  apply UInt64.toNat_inj.mp
-  rw [UInt64.toNat_sub]
-  simp only [UInt64.toNat_ofNat']
-  have : (64 : UInt64).toNat = 64 := rfl
-  rw [this]
-  have h1 : hb % 2 ^ 64 = hb := Nat.mod_eq_of_lt (by omega)
-  have h2 : (64 - hb) % 2 ^ 64 = 64 - hb := Nat.mod_eq_of_lt (by omega)
-  rw [h1, h2]; omega
-
-/-- G04 for every `hashBits ≤ 64`: the Go function is the model value truncated to `uint32` -/
-theorem gen_hashValue_mod (x : UInt64) (hb : Nat) (h : hb ≤ 64) :
-    (Gen.hashValue x (64 - UInt64.ofNat hb)).toNat = LZ.hashValue x hb % 2 ^ 32 := by
-  rw [shift_eq hb h]
-  unfold Gen.hashValue Gen.shrU64 LZ.hashValue
-  rw [prime_eq]
-  have h2 : (UInt64.ofNat (64 - hb)).toNat = 64 - hb := by
-    simp only [UInt64.toNat_ofNat']; exact Nat.mod_eq_of_lt (by omega)
-  rw [h2]
-  by_cases h0 : hb = 0
-  · subst h0; simp
-  · have : 64 - hb < 64 := by omega
-    simp only [this, if_true, h0, if_false, UInt64.toNat_toUInt32]
-
-theorem hashValue_lt (x : UInt64) (hb : Nat) (h : hb ≤ 64) : LZ.hashValue x hb < 2 ^ hb := by
-  unfold LZ.hashValue
-  by_cases h0 : hb = 0
-  · subst h0; simp
-  · simp only [h0, if_false, UInt64.toNat_shiftRight, UInt64.toNat_ofNat']
-    have e1 : (64 - hb) % 2 ^ 64 = 64 - hb := Nat.mod_eq_of_lt (by omega)
-    have e2 : (64 - hb) % 64 = 64 - hb := Nat.mod_eq_of_lt (by omega)
-    rw [e1, e2, Nat.shiftRight_eq_div_pow]
-    have hy : (x * prime64).toNat < 2 ^ 64 := UInt64.toNat_lt _
-    have hp : 2 ^ (64 - hb) * 2 ^ hb = 2 ^ 64 := by rw [← Nat.pow_add]; congr 1; omega
-    rw [Nat.div_lt_iff_lt_mul (Nat.two_pow_pos _)]
-    rw [Nat.mul_comm, hp]; exact hy
-
-/-- G04 on the domain of the callers (`Verify` bounds HashBits by 24 ≤ 32) the model value
-    is the Go value; for 32 < hashBits ≤ 64 the model lacks the `uint32(…)` truncation
-    (see `gen_hashValue_mod`) -/
-theorem gen_hashValue (x : UInt64) (hb : Nat) (h : hb ≤ 32) :
-    (Gen.hashValue x (64 - UInt64.ofNat hb)).toNat = LZ.hashValue x hb := by
-  rw [gen_hashValue_mod x hb (by omega)]
-  apply Nat.mod_eq_of_lt
-  have := hashValue_lt x hb (by omega)
-  have : 2 ^ hb ≤ 2 ^ 32 := Nat.pow_le_pow_right (by omega) h
-  omega
-
-/-! ## osap.go: XZCost -/
-
-theorem toNat_ofInt_small (n : Nat) (h : n < 2 ^ 64) : (UInt64.ofInt (Int.ofNat n)).toNat = n := by
-  unfold UInt64.ofInt
-  simp only [UInt64.toNat_ofNat', Int.ofNat_eq_natCast, Nat.reducePow, Int.reducePow] at *
-  omega
-
-theorem bitsLen32_eq (d : UInt32) (h : d.toNat ≠ 0) :
-    Gen.bitsLen32 d = Int.ofNat (Nat.log2 d.toNat + 1) ∧ Nat.log2 d.toNat + 1 ≤ 32 := by
-  unfold Gen.bitsLen32
-  have hd : d ≠ 0 := by intro e; apply h; rw [e]; rfl
-  have hl : Nat.log2 d.toNat < 32 := (Nat.log2_lt h).mpr (UInt32.toNat_lt d)
-  simp only [hd, if_false, true_and]
-  omega
-
-/-- G05 for ALL `m o : uint32` — the model's `(m + 2^32 - 2) % 2^32` is exactly the
-    wrap-around of `m -= 2`, so no precondition `2 ≤ m` is needed -/
-theorem gen_xzCost (m o : UInt32) : (Gen.XZCost m o).toNat = xzCost m.toNat o.toNat := by
-  unfold Gen.XZCost xzCost
-  have hm := UInt32.toNat_lt m
-  have ho := UInt32.toNat_lt o
-  by_cases h0 : o = 0
-  · subst h0
-    simp only [if_true, UInt32.toNat_zero, UInt64.toNat_mul, UInt32.toNat_toUInt64, UInt64.toNat_ofNat,
-      Nat.reducePow, Nat.reduceMod] at *
-    omega
-  · have ho0 : o.toNat ≠ 0 := by intro e; apply h0; apply UInt32.toNat_inj.mp; rw [e]; rfl
-    have hm2 : (m - 2).toNat = (m.toNat + 4294967296 - 2) % 4294967296 := by
-      rw [UInt32.toNat_sub]; simp only [UInt32.toNat_ofNat, Nat.reducePow, Nat.reduceMod]; omega
-    have hd : (o - 1).toNat = o.toNat - 1 := by
-      rw [UInt32.toNat_sub]; simp only [UInt32.toNat_ofNat, Nat.reducePow, Nat.reduceMod] at *; omega
-    simp only [h0, ho0, if_false, UInt32.lt_iff_toNat_lt, hm2, hd, UInt32.toNat_ofNat, Nat.reducePow, Nat.reduceMod]
-    generalize (m.toNat + 4294967296 - 2) % 4294967296 = m2
-    by_cases hd4 : o.toNat - 1 < 4
-    · simp only [hd4, if_true]
-      repeat' split
-      all_goals rfl
-    · have hdn : (o - 1).toNat ≠ 0 := by omega
-      obtain ⟨hb, hl⟩ := bitsLen32_eq (o - 1) hdn
-      rw [hd] at hb hl
-      simp only [hd4, if_false, hb]
-      have hof := toNat_ofInt_small ((o.toNat - 1).log2 + 1) (by omega)
-      generalize UInt64.ofInt (Int.ofNat ((o.toNat - 1).log2 + 1)) = w at hof
-      generalize (o.toNat - 1).log2 = lg at *
-      repeat' split
-      all_goals simp only [UInt64.toNat_add, UInt64.toNat_ofNat, hof, Nat.reducePow, Nat.reduceMod]
-      all_goals omega
-
-/-! ## lz.go: Seq.Len, Block.Len -/
-
-def ofSeq (s : Gen.Seq) : LZ.Seq :=
-  { litLen := s.LitLen.toNat, matchLen := s.MatchLen.toNat, offset := s.Offset.toNat, aux := s.Aux.toNat }
-
-def ofBlock (b : Gen.Block) : LZ.Block := { seqs := b.Sequences.map ofSeq, lits := b.Literals }
-
-/-- G06 -/
-theorem gen_seqLen (s : Gen.Seq) : Gen.Seq_Len s = ((ofSeq s).matchLen + (ofSeq s).litLen : Nat) := by
-  simp [Gen.Seq_Len, ofSeq]
-
-theorem foldl_matchLen (l : List Gen.Seq) (n : Int) :
-    List.foldl (fun n s => n + Int.ofNat s.MatchLen.toNat) n l
-      = n + (((l.map ofSeq).map (·.matchLen)).sum : Nat) := by
-  induction l generalizing n with
-  | nil => simp
-  | cons s t ih =>
-    simp only [List.foldl_cons, List.map_cons, List.sum_cons, ih]
-    simp only [ofSeq, Int.ofNat_eq_natCast, Int.natCast_add]
-    omega
-
-/-- G07 -/
-theorem gen_blockLen (b : Gen.Block) : Gen.Block_Len b = ((ofBlock b).len : Nat) := by
-  unfold Gen.Block_Len LZ.Block.len ofBlock
-  simp only [foldl_matchLen]
-  simp
-
-/-! ## configurations: the four helper configurations -/
-
-/-- the model's verification predicates as propositions (constants of `Facts` unfolded) -/
-theorem bufVerify_iff (c : Cfg) : bufVerify c = true ↔
-    ((1 ≤ c.bufferSize ∧ c.bufferSize ≤ 4294967288) ∧ (0 ≤ c.shrinkSize ∧ c.shrinkSize < c.bufferSize) ∧
-     (0 ≤ c.windowSize ∧ c.windowSize ≤ 4294967288) ∧ (1 ≤ c.blockSize ∧ c.blockSize ≤ 4294967288)) := by
-  unfold bufVerify
-  simp +zetaHave only [decide_eq_true_eq]
-  simp only [Facts.maxUint32, Facts.margin]
-  omega
-
-theorem hashVerify_iff (il hb mb : Int) : hashVerify il hb mb = true ↔
-    ((2 ≤ il ∧ il ≤ 8) ∧ (0 ≤ hb ∧ hb ≤ (if 8 * il < mb then 8 * il else mb))) := by
-  unfold hashVerify
-  simp +zetaHave only [decide_eq_true_eq]
-  simp only [Facts.minInputLen, Facts.maxInputLen]
-
-/-- an error-propagating step `if err = f(); err != nil { return err }; rest` -/
-theorem seq_ok (a b : Gen.Err) : (if a ≠ .ok then a else b) = .ok ↔ a = .ok ∧ b = .ok := by
-  split <;> simp_all
-
-/-- a check `if !(p) { return error k }; rest` -/
-theorem chk_ok {p : Prop} [Decidable p] (k : Nat) (r : Gen.Err) :
-    (if ¬p then Gen.Err.error k else r) = .ok ↔ p ∧ r = .ok := by
-  split <;> simp_all
-
-/-! ### the domain on which `hashValue` is used
-
-The model's `hashValue x hashBits` returns a `Nat` without the `uint32(…)` truncation, so it
-equals the Go function only for `hashBits ≤ 32` (`gen_hashValue`).  Every caller takes
-`hashBits` from a verified configuration, where it is at most 24 (23 for the bucket hash). -/
-
-theorem hashBits_domain (il hb : Int) (h : hashVerify il hb Facts.maxHashBits = true) :
-    0 ≤ hb ∧ hb ≤ 24 := by
-  rw [hashVerify_iff] at h
-  simp only [Facts.maxHashBits] at h
-  omega
-
-theorem bucketHashBits_domain (il hb : Int) (h : hashVerify il hb Facts.maxBucketHashBits = true) :
-    0 ≤ hb ∧ hb ≤ 23 := by
-  rw [hashVerify_iff] at h
-  simp only [Facts.maxBucketHashBits] at h
-  omega
-
-/-- G04 on verified configurations (what `hash.init` / `bucketHash.init` accept) the model's
-    `hashValue` is the Go `hashValue` with `shift = 64 - hashBits` -/
-theorem gen_hashValue_verified (x : UInt64) (il hb : Int)
-    (h : hashVerify il hb Facts.maxHashBits = true ∨ hashVerify il hb Facts.maxBucketHashBits = true) :
-    (Gen.hashValue x (64 - UInt64.ofNat hb.toNat)).toNat = LZ.hashValue x hb.toNat := by
-  apply gen_hashValue
-  rcases h with h | h
-  · have := hashBits_domain il hb h; omega
-  · have := bucketHashBits_domain il hb h; omega
-
-def ofBuf (c : Gen.BufConfig) : Cfg :=
-  { shrinkSize := c.ShrinkSize, bufferSize := c.BufferSize, windowSize := c.WindowSize,
-    blockSize := c.BlockSize }
-
-/-- G08 `(*BufConfig).SetDefaults` -/
-theorem gen_bufDefaults (c : Gen.BufConfig) :
-    ofBuf (Gen.BufConfig_SetDefaults c) = bufDefaults (ofBuf c) := by
-  obtain ⟨ss, bs, ws, bl⟩ := c
-  simp only [Gen.BufConfig_SetDefaults, bufDefaults, ofBuf, Facts.defWindowSize,
-    Facts.shrinkSmallLimit, Facts.defShrinkSize, Facts.defBlockSize]
-  repeat' split
-  all_goals simp_all
-  all_goals (intros; omega)
-
-theorem gen_bufDefaults' (b : Gen.BufConfig) : Gen.BufConfig_SetDefaults b =
-    ⟨(bufDefaults (ofBuf b)).shrinkSize, (bufDefaults (ofBuf b)).bufferSize,
-     (bufDefaults (ofBuf b)).windowSize, (bufDefaults (ofBuf b)).blockSize⟩ := by
-  rw [← gen_bufDefaults]; rfl
-
-/-- G09 `(*BufConfig).Verify` -/
-theorem gen_bufVerify (c : Gen.BufConfig) :
-    Gen.BufConfig_Verify c = .ok ↔ bufVerify (ofBuf c) = true := by
-  rw [bufVerify_iff]
-  obtain ⟨ss, bs, ws, bl⟩ := c
-  simp only [Gen.BufConfig_Verify, ofBuf]
-  repeat' split
-  all_goals simp only [reduceCtorEq, false_iff, true_iff]
-  all_goals omega
-
-/-- G09 which check fails: the k-th `fmt.Errorf` is returned iff the first k-1 range checks
-    pass and the k-th does not -/
-theorem gen_bufVerify_error1 (c : Gen.BufConfig) :
-    Gen.BufConfig_Verify c = .error 1 ↔ ¬(1 ≤ c.BufferSize ∧ c.BufferSize ≤ 4294967288) := by
-  simp only [Gen.BufConfig_Verify]
-  repeat' split
-  all_goals simp only [reduceCtorEq, Gen.Err.error.injEq, false_iff, true_iff]
-  all_goals omega
-
-theorem gen_bufVerify_error2 (c : Gen.BufConfig) :
-    Gen.BufConfig_Verify c = .error 2 ↔
-      (1 ≤ c.BufferSize ∧ c.BufferSize ≤ 4294967288) ∧ ¬(0 ≤ c.ShrinkSize ∧ c.ShrinkSize < c.BufferSize) := by
-  simp only [Gen.BufConfig_Verify]
-  repeat' split
-  all_goals simp only [reduceCtorEq, Gen.Err.error.injEq, false_iff, true_iff]
-  all_goals omega
-
-theorem gen_bufVerify_error3 (c : Gen.BufConfig) :
-    Gen.BufConfig_Verify c = .error 3 ↔
-      (1 ≤ c.BufferSize ∧ c.BufferSize ≤ 4294967288) ∧ (0 ≤ c.ShrinkSize ∧ c.ShrinkSize < c.BufferSize) ∧
-      ¬(0 ≤ c.WindowSize ∧ c.WindowSize ≤ 4294967288) := by
-  simp only [Gen.BufConfig_Verify]
-  repeat' split
-  all_goals simp only [reduceCtorEq, Gen.Err.error.injEq, false_iff, true_iff]
-  all_goals omega
-
-theorem gen_bufVerify_error4 (c : Gen.BufConfig) :
-    Gen.BufConfig_Verify c = .error 4 ↔
-      (1 ≤ c.BufferSize ∧ c.BufferSize ≤ 4294967288) ∧ (0 ≤ c.ShrinkSize ∧ c.ShrinkSize < c.BufferSize) ∧
-      (0 ≤ c.WindowSize ∧ c.WindowSize ≤ 4294967288) ∧ ¬(1 ≤ c.BlockSize ∧ c.BlockSize ≤ 4294967288) := by
-  simp only [Gen.BufConfig_Verify]
-  repeat' split
-  all_goals simp only [reduceCtorEq, Gen.Err.error.injEq, false_iff, true_iff]
-  all_goals omega
-
-/-- G10 `(*hashConfig).SetDefaults` -/
-theorem gen_hashDefaults (c : Gen.hashConfig) :
-    ((Gen.hashConfig_SetDefaults c).InputLen, (Gen.hashConfig_SetDefaults c).HashBits)
-      = hashDefaults c.InputLen c.HashBits := by
-  obtain ⟨il, hb⟩ := c
-  simp only [Gen.hashConfig_SetDefaults, hashDefaults, Facts.defInputLen, Facts.defHashBits]
-  repeat' split
-  all_goals simp_all
-
-theorem gen_hashDefaults' (h : Gen.hashConfig) : Gen.hashConfig_SetDefaults h =
-    ⟨(hashDefaults h.InputLen h.HashBits).1, (hashDefaults h.InputLen h.HashBits).2⟩ := by
-  rw [← gen_hashDefaults]
-
-/-- G11 `(*hashConfig).Verify` -/
-theorem gen_hashVerify (c : Gen.hashConfig) :
-    Gen.hashConfig_Verify c = .ok ↔ hashVerify c.InputLen c.HashBits Facts.maxHashBits = true := by
-  rw [hashVerify_iff]
-  obtain ⟨il, hb⟩ := c
-  simp only [Gen.hashConfig_Verify, Facts.maxHashBits]
-  repeat' split
-  all_goals simp only [reduceCtorEq, false_iff, true_iff]
-  all_goals omega
-
-theorem gen_hashVerify_error1 (c : Gen.hashConfig) :
-    Gen.hashConfig_Verify c = .error 1 ↔ ¬(2 ≤ c.InputLen ∧ c.InputLen ≤ 8) := by
-  simp only [Gen.hashConfig_Verify]
-  repeat' split
-  all_goals simp only [reduceCtorEq, Gen.Err.error.injEq, false_iff, true_iff]
-  all_goals omega
-
-theorem gen_hashVerify_error2 (c : Gen.hashConfig) :
-    Gen.hashConfig_Verify c = .error 2 ↔
-      (2 ≤ c.InputLen ∧ c.InputLen ≤ 8) ∧ ¬(0 ≤ c.HashBits ∧ c.HashBits ≤ min (8 * c.InputLen) 24) := by
-  simp only [Gen.hashConfig_Verify]
-  repeat' split
-  all_goals simp only [reduceCtorEq, Gen.Err.error.injEq, false_iff, true_iff]
-  all_goals omega
-
-def ofDh (d : Gen.dhConfig) : Cfg :=
-  { inputLen1 := d.H1.InputLen, hashBits1 := d.H1.HashBits,
-    inputLen2 := d.H2.InputLen, hashBits2 := d.H2.HashBits }
-
-/-- G12 `(*dhConfig).SetDefaults`: the double-hash part of `setDefaults .DHP` -/
-theorem gen_dhDefaults (d : Gen.dhConfig) : Gen.dhConfig_SetDefaults d =
-    ⟨⟨(setDefaults .DHP (ofDh d)).inputLen1, (setDefaults .DHP (ofDh d)).hashBits1⟩,
-     ⟨(setDefaults .DHP (ofDh d)).inputLen2, (setDefaults .DHP (ofDh d)).hashBits2⟩⟩ := by
-  obtain ⟨⟨il1, hb1⟩, ⟨il2, hb2⟩⟩ := d
-  simp only [Gen.dhConfig_SetDefaults, gen_hashDefaults', setDefaults, ofDh, bufDefaults, hashDefaults,
-    Facts.dhSmallInputLen, Facts.defInputLen2Small, Facts.defInputLen2Large, Facts.defInputLen,
-    Facts.defHashBits]
-  repeat' split
-  all_goals simp_all
-
-/-- G13 `(*dhConfig).Verify`: the double-hash part of `verify .DHP` -/
-theorem gen_dhVerify (d : Gen.dhConfig) :
-    Gen.dhConfig_Verify d = .ok ↔
-      (hashVerify d.H1.InputLen d.H1.HashBits Facts.maxHashBits &&
-       hashVerify d.H2.InputLen d.H2.HashBits Facts.maxHashBits &&
-       decide (d.H1.InputLen < d.H2.InputLen)) = true := by
-  simp only [Gen.dhConfig_Verify, seq_ok, chk_ok, gen_hashVerify, Bool.and_eq_true, decide_eq_true_eq,
-    and_true, and_assoc]
-
-def ofBucket (b : Gen.bucketConfig) : Cfg :=
-  { inputLen := b.InputLen, hashBits := b.HashBits, bucketSize := b.BucketSize }
-
-/-- G14 `(*bucketConfig).SetDefaults`: the bucket part of `setDefaults .BUP` -/
-theorem gen_bucketDefaults (b : Gen.bucketConfig) : Gen.bucketConfig_SetDefaults b =
-    ⟨(setDefaults .BUP (ofBucket b)).inputLen, (setDefaults .BUP (ofBucket b)).hashBits,
-     (setDefaults .BUP (ofBucket b)).bucketSize⟩ := by
-  obtain ⟨il, hb, bs⟩ := b
-  simp only [Gen.bucketConfig_SetDefaults, setDefaults, ofBucket, bufDefaults,
-    Facts.defBucketInputLen, Facts.defBucketHashBits, Facts.defBucketSize]
-  repeat' split
-  all_goals simp_all
-
-/-- G15 `(*bucketConfig).Verify`: the bucket part of `verify .BUP` -/
-theorem gen_bucketVerify (b : Gen.bucketConfig) :
-    Gen.bucketConfig_Verify b = .ok ↔
-      (hashVerify b.InputLen b.HashBits Facts.maxBucketHashBits &&
-       decide (Facts.minBucketSize ≤ b.BucketSize ∧ b.BucketSize ≤ Facts.maxBucketSize)) = true := by
-  rw [Bool.and_eq_true, hashVerify_iff, decide_eq_true_eq]
-  obtain ⟨il, hb, bs⟩ := b
-  simp only [Gen.bucketConfig_Verify, Facts.maxBucketHashBits, Facts.minBucketSize, Facts.maxBucketSize]
-  repeat' split
-  all_goals simp only [reduceCtorEq, false_iff, true_iff]
-  all_goals omega
-
-
-/-! ## configurations: the seven parser configurations
-
-`of<K>` reads a generated configuration struct as the model's union record `Cfg` (fields
-the kind does not have are zero), `to<K>` is the inverse on `Cfg.restrict <K>`.
-`bufferConfig`/`setBufferConfig`/`hashCfg`/… appear in the generated code as the field
-copies the extractor read from their source. -/
-
-def ofHP (c : Gen.HPConfig) : Cfg :=
-  { shrinkSize := c.ShrinkSize, bufferSize := c.BufferSize, windowSize := c.WindowSize,
-    blockSize := c.BlockSize,
-    inputLen := c.InputLen, hashBits := c.HashBits }
-
-def toHP (c : Cfg) : Gen.HPConfig :=
-  { ShrinkSize := c.shrinkSize, BufferSize := c.bufferSize, WindowSize := c.windowSize,
-    BlockSize := c.blockSize,
-    InputLen := c.inputLen, HashBits := c.hashBits }
-
-theorem ofHP_toHP (c : Cfg) : ofHP (toHP c) = c.restrict .HP := by
-  simp [ofHP, toHP, Cfg.restrict, Kind.fields]
-
-theorem toHP_ofHP (c : Gen.HPConfig) : toHP (ofHP c) = c := rfl
-
-def ofBHP (c : Gen.BHPConfig) : Cfg :=
-  { shrinkSize := c.ShrinkSize, bufferSize := c.BufferSize, windowSize := c.WindowSize,
-    blockSize := c.BlockSize,
-    inputLen := c.InputLen, hashBits := c.HashBits }
-
-def toBHP (c : Cfg) : Gen.BHPConfig :=
-  { ShrinkSize := c.shrinkSize, BufferSize := c.bufferSize, WindowSize := c.windowSize,
-    BlockSize := c.blockSize,
-    InputLen := c.inputLen, HashBits := c.hashBits }
-
-theorem ofBHP_toBHP (c : Cfg) : ofBHP (toBHP c) = c.restrict .BHP := by
-  simp [ofBHP, toBHP, Cfg.restrict, Kind.fields]
-
-theorem toBHP_ofBHP (c : Gen.BHPConfig) : toBHP (ofBHP c) = c := rfl
-
-def ofDHP (c : Gen.DHPConfig) : Cfg :=
-  { shrinkSize := c.ShrinkSize, bufferSize := c.BufferSize, windowSize := c.WindowSize,
-    blockSize := c.BlockSize,
-    inputLen1 := c.InputLen1, hashBits1 := c.HashBits1, inputLen2 := c.InputLen2, hashBits2 := c.HashBits2 }
-
-def toDHP (c : Cfg) : Gen.DHPConfig :=
-  { ShrinkSize := c.shrinkSize, BufferSize := c.bufferSize, WindowSize := c.windowSize,
-    BlockSize := c.blockSize,
-    InputLen1 := c.inputLen1, HashBits1 := c.hashBits1, InputLen2 := c.inputLen2, HashBits2 := c.hashBits2 }
-
-theorem ofDHP_toDHP (c : Cfg) : ofDHP (toDHP c) = c.restrict .DHP := by
-  simp [ofDHP, toDHP, Cfg.restrict, Kind.fields]
-
-theorem toDHP_ofDHP (c : Gen.DHPConfig) : toDHP (ofDHP c) = c := rfl
-
-def ofBDHP (c : Gen.BDHPConfig) : Cfg :=
-  { shrinkSize := c.ShrinkSize, bufferSize := c.BufferSize, windowSize := c.WindowSize,
-    blockSize := c.BlockSize,
-    inputLen1 := c.InputLen1, hashBits1 := c.HashBits1, inputLen2 := c.InputLen2, hashBits2 := c.HashBits2 }
-
-def toBDHP (c : Cfg) : Gen.BDHPConfig :=
-  { ShrinkSize := c.shrinkSize, BufferSize := c.bufferSize, WindowSize := c.windowSize,
-    BlockSize := c.blockSize,
-    InputLen1 := c.inputLen1, HashBits1 := c.hashBits1, InputLen2 := c.inputLen2, HashBits2 := c.hashBits2 }
-
-theorem ofBDHP_toBDHP (c : Cfg) : ofBDHP (toBDHP c) = c.restrict .BDHP := by
-  simp [ofBDHP, toBDHP, Cfg.restrict, Kind.fields]
-
-theorem toBDHP_ofBDHP (c : Gen.BDHPConfig) : toBDHP (ofBDHP c) = c := rfl
-
-def ofBUP (c : Gen.BUPConfig) : Cfg :=
-  { shrinkSize := c.ShrinkSize, bufferSize := c.BufferSize, windowSize := c.WindowSize,
-    blockSize := c.BlockSize,
-    inputLen := c.InputLen, hashBits := c.HashBits, bucketSize := c.BucketSize }
-
-def toBUP (c : Cfg) : Gen.BUPConfig :=
-  { ShrinkSize := c.shrinkSize, BufferSize := c.bufferSize, WindowSize := c.windowSize,
-    BlockSize := c.blockSize,
-    InputLen := c.inputLen, HashBits := c.hashBits, BucketSize := c.bucketSize }
-
-theorem ofBUP_toBUP (c : Cfg) : ofBUP (toBUP c) = c.restrict .BUP := by
-  simp [ofBUP, toBUP, Cfg.restrict, Kind.fields]
-
-theorem toBUP_ofBUP (c : Gen.BUPConfig) : toBUP (ofBUP c) = c := rfl
-
-def ofGSAP (c : Gen.GSAPConfig) : Cfg :=
-  { shrinkSize := c.ShrinkSize, bufferSize := c.BufferSize, windowSize := c.WindowSize,
-    blockSize := c.BlockSize,
-    minMatchLen := c.MinMatchLen }
-
-def toGSAP (c : Cfg) : Gen.GSAPConfig :=
-  { ShrinkSize := c.shrinkSize, BufferSize := c.bufferSize, WindowSize := c.windowSize,
-    BlockSize := c.blockSize,
-    MinMatchLen := c.minMatchLen }
-
-theorem ofGSAP_toGSAP (c : Cfg) : ofGSAP (toGSAP c) = c.restrict .GSAP := by
-  simp [ofGSAP, toGSAP, Cfg.restrict, Kind.fields]
-
-theorem toGSAP_ofGSAP (c : Gen.GSAPConfig) : toGSAP (ofGSAP c) = c := rfl
-
-def ofOSAP (c : Gen.OSAPConfig) : Cfg :=
-  { shrinkSize := c.ShrinkSize, bufferSize := c.BufferSize, windowSize := c.WindowSize,
-    blockSize := c.BlockSize,
-    minMatchLen := c.MinMatchLen, maxMatchLen := c.MaxMatchLen, cost := c.Cost }
-
-def toOSAP (c : Cfg) : Gen.OSAPConfig :=
-  { ShrinkSize := c.shrinkSize, BufferSize := c.bufferSize, WindowSize := c.windowSize,
-    BlockSize := c.blockSize,
-    MinMatchLen := c.minMatchLen, MaxMatchLen := c.maxMatchLen, Cost := c.cost }
-
-theorem ofOSAP_toOSAP (c : Cfg) : ofOSAP (toOSAP c) = c.restrict .OSAP := by
-  simp [ofOSAP, toOSAP, Cfg.restrict, Kind.fields]
-
-theorem toOSAP_ofOSAP (c : Gen.OSAPConfig) : toOSAP (ofOSAP c) = c := rfl
-
-/-! ### G16 SetDefaults -/
-
-theorem gen_setDefaults_HP (c : Gen.HPConfig) :
-    ofHP (Gen.HPConfig_SetDefaults c) = setDefaults .HP (ofHP c) := by
-  simp only [Gen.HPConfig_SetDefaults, gen_bufDefaults', gen_hashDefaults']
-  rfl
-
-theorem gen_setDefaults_BHP (c : Gen.BHPConfig) :
-    ofBHP (Gen.BHPConfig_SetDefaults c) = setDefaults .BHP (ofBHP c) := by
-  simp only [Gen.BHPConfig_SetDefaults, gen_bufDefaults', gen_hashDefaults']
-  rfl
-
-theorem gen_setDefaults_DHP (c : Gen.DHPConfig) :
-    ofDHP (Gen.DHPConfig_SetDefaults c) = setDefaults .DHP (ofDHP c) := by
-  simp only [Gen.DHPConfig_SetDefaults, gen_bufDefaults', gen_dhDefaults]
-  rfl
-
-theorem gen_setDefaults_BDHP (c : Gen.BDHPConfig) :
-    ofBDHP (Gen.BDHPConfig_SetDefaults c) = setDefaults .BDHP (ofBDHP c) := by
-  simp only [Gen.BDHPConfig_SetDefaults, gen_bufDefaults', gen_dhDefaults]
-  rfl
-
-theorem gen_setDefaults_BUP (c : Gen.BUPConfig) :
-    ofBUP (Gen.BUPConfig_SetDefaults c) = setDefaults .BUP (ofBUP c) := by
-  simp only [Gen.BUPConfig_SetDefaults, gen_bufDefaults', gen_bucketDefaults]
-  rfl
-
-theorem gen_setDefaults_GSAP (c : Gen.GSAPConfig) :
-    ofGSAP (Gen.GSAPConfig_SetDefaults c) = setDefaults .GSAP (ofGSAP c) := by
-  have e : setDefaults .GSAP (ofGSAP c) = { bufDefaults (ofGSAP c) with
-      minMatchLen := if c.MinMatchLen = 0 then Facts.defMinMatchLen else c.MinMatchLen } := rfl
-  rw [e]
-  simp only [Gen.GSAPConfig_SetDefaults, gen_bufDefaults']
-  by_cases h : c.MinMatchLen = 0
-  · simp only [h, if_true]; rfl
-  · simp only [h, if_false]; rfl
-
-/-- `if bc.BufferSize == 0 { bc.SetDefaults(); bc.BufferSize = bc.WindowSize }` changes nothing:
-    that is what `BufConfig.SetDefaults` yields anyway -/
-theorem bufDefaults_bufferSize_of_zero (c : Cfg) (h : c.bufferSize = 0) :
-    (bufDefaults c).bufferSize = (bufDefaults c).windowSize := by
-  simp [bufDefaults, h]
-
-theorem gen_setDefaults_OSAP (c : Gen.OSAPConfig) :
-    ofOSAP (Gen.OSAPConfig_SetDefaults c) = setDefaults .OSAP (ofOSAP c) := by
-  have e : setDefaults .OSAP (ofOSAP c) = { bufDefaults (ofOSAP c) with
-      minMatchLen := if c.MinMatchLen = 0 then Facts.defOsapMinMatchLen else c.MinMatchLen,
-      maxMatchLen := if c.MaxMatchLen = 0 then Facts.defMaxMatchLen else c.MaxMatchLen,
-      cost := if c.Cost = "" then Facts.defCost else c.Cost } := rfl
-  rw [e]
-  have hz : c.BufferSize = 0 →
-      (bufDefaults (ofBuf ⟨c.ShrinkSize, c.BufferSize, c.WindowSize, c.BlockSize⟩)).windowSize
-        = (bufDefaults (ofOSAP c)).bufferSize :=
-    fun h => (bufDefaults_bufferSize_of_zero (ofOSAP c) h).symm
-  simp only [Gen.OSAPConfig_SetDefaults, gen_bufDefaults']
-  by_cases h0 : c.BufferSize = 0 <;> by_cases h1 : c.MinMatchLen = 0 <;>
-    by_cases h2 : c.MaxMatchLen = 0 <;> by_cases h3 : c.Cost = "" <;>
-    simp only [h0, h1, h2, h3, if_true, if_false, ofOSAP, Cfg.mk.injEq] <;>
-    (repeat' constructor) <;> first | rfl | exact hz h0
-
-/-! ### G17 Verify -/
-
-theorem gen_verify_HP (c : Gen.HPConfig) :
-    Gen.HPConfig_Verify c = .ok ↔ verify .HP (ofHP c) = true := by
-  simp only [Gen.HPConfig_Verify, seq_ok, gen_bufVerify, gen_hashVerify, verify, Bool.and_eq_true]
-  rfl
-
-theorem gen_verify_BHP (c : Gen.BHPConfig) :
-    Gen.BHPConfig_Verify c = .ok ↔ verify .BHP (ofBHP c) = true := by
-  simp only [Gen.BHPConfig_Verify, seq_ok, gen_bufVerify, gen_hashVerify, verify, Bool.and_eq_true]
-  rfl
-
-theorem gen_verify_DHP (c : Gen.DHPConfig) :
-    Gen.DHPConfig_Verify c = .ok ↔ verify .DHP (ofDHP c) = true := by
-  simp only [Gen.DHPConfig_Verify, seq_ok, gen_bufVerify, gen_dhVerify, verify, Bool.and_eq_true,
-    and_true, and_assoc]
-  rfl
-
-theorem gen_verify_BDHP (c : Gen.BDHPConfig) :
-    Gen.BDHPConfig_Verify c = .ok ↔ verify .BDHP (ofBDHP c) = true := by
-  simp only [Gen.BDHPConfig_Verify, seq_ok, gen_bufVerify, gen_dhVerify, verify, Bool.and_eq_true,
-    and_true, and_assoc]
-  rfl
-
-theorem gen_verify_BUP (c : Gen.BUPConfig) :
-    Gen.BUPConfig_Verify c = .ok ↔ verify .BUP (ofBUP c) = true := by
-  simp only [Gen.BUPConfig_Verify, seq_ok, gen_bufVerify, gen_bucketVerify, verify, Bool.and_eq_true,
-    and_assoc]
-  rfl
-
-theorem gen_verify_GSAP (c : Gen.GSAPConfig) :
-    Gen.GSAPConfig_Verify c = .ok ↔ verify .GSAP (ofGSAP c) = true := by
-  simp only [Gen.GSAPConfig_Verify, seq_ok, chk_ok, gen_bufVerify, verify, Bool.and_eq_true,
-    decide_eq_true_eq, and_true, and_assoc]
-  simp only [Facts.maxInt32]
-  rfl
-
-theorem gen_verify_OSAP (c : Gen.OSAPConfig) :
-    Gen.OSAPConfig_Verify c = .ok ↔ verify .OSAP (ofOSAP c) = true := by
-  have hc : (if c.Cost = "XZCost" then Gen.Err.ok else Gen.Err.error 2) = .ok ↔ c.Cost = "XZCost" := by
-    split <;> simp_all
-  simp only [Gen.OSAPConfig_Verify, seq_ok, chk_ok, hc, gen_bufVerify, verify, Bool.and_eq_true,
-    decide_eq_true_eq, and_assoc]
-  simp only [Facts.defCost]
-  rfl
-
-/-- G17 which check of `GSAPConfig.Verify` fails (the three checks after the buffer check) -/
-theorem gen_verify_GSAP_errors (c : Gen.GSAPConfig)
-    (hb : Gen.BufConfig_Verify ⟨c.ShrinkSize, c.BufferSize, c.WindowSize, c.BlockSize⟩ = .ok) :
-    (Gen.GSAPConfig_Verify c = .error 1 ↔ ¬(2 ≤ c.MinMatchLen)) ∧
-    (Gen.GSAPConfig_Verify c = .error 2 ↔ 2 ≤ c.MinMatchLen ∧ ¬(c.MinMatchLen ≤ c.WindowSize)) ∧
-    (Gen.GSAPConfig_Verify c = .error 3 ↔
-      2 ≤ c.MinMatchLen ∧ c.MinMatchLen ≤ c.WindowSize ∧ ¬(c.WindowSize ≤ 2147483647)) := by
-  simp only [Gen.GSAPConfig_Verify, hb]
-  refine ⟨?_, ?_, ?_⟩
-  all_goals repeat' split
-  all_goals simp only [reduceCtorEq, Gen.Err.error.injEq, false_iff, true_iff, ne_eq, not_true_eq_false] at *
-  all_goals omega
-
-/-! ### G18 `NewParser` accepts a configuration iff the generated code does -/
-
-theorem gen_accepted_HP (c : Cfg) :
-    accepted .HP c = true ↔ Gen.HPConfig_Verify (Gen.HPConfig_SetDefaults (toHP c)) = .ok := by
-  rw [gen_verify_HP, gen_setDefaults_HP, ofHP_toHP]; rfl
-
-theorem gen_accepted_BHP (c : Cfg) :
-    accepted .BHP c = true ↔ Gen.BHPConfig_Verify (Gen.BHPConfig_SetDefaults (toBHP c)) = .ok := by
-  rw [gen_verify_BHP, gen_setDefaults_BHP, ofBHP_toBHP]; rfl
-
-theorem gen_accepted_DHP (c : Cfg) :
-    accepted .DHP c = true ↔ Gen.DHPConfig_Verify (Gen.DHPConfig_SetDefaults (toDHP c)) = .ok := by
-  rw [gen_verify_DHP, gen_setDefaults_DHP, ofDHP_toDHP]; rfl
-
-theorem gen_accepted_BDHP (c : Cfg) :
-    accepted .BDHP c = true ↔ Gen.BDHPConfig_Verify (Gen.BDHPConfig_SetDefaults (toBDHP c)) = .ok := by
-  rw [gen_verify_BDHP, gen_setDefaults_BDHP, ofBDHP_toBDHP]; rfl
-
-theorem gen_accepted_BUP (c : Cfg) :
-    accepted .BUP c = true ↔ Gen.BUPConfig_Verify (Gen.BUPConfig_SetDefaults (toBUP c)) = .ok := by
-  rw [gen_verify_BUP, gen_setDefaults_BUP, ofBUP_toBUP]; rfl
-
-theorem gen_accepted_GSAP (c : Cfg) :
-    accepted .GSAP c = true ↔ Gen.GSAPConfig_Verify (Gen.GSAPConfig_SetDefaults (toGSAP c)) = .ok := by
-  rw [gen_verify_GSAP, gen_setDefaults_GSAP, ofGSAP_toGSAP]; rfl
-
-theorem gen_accepted_OSAP (c : Cfg) :
-    accepted .OSAP c = true ↔ Gen.OSAPConfig_Verify (Gen.OSAPConfig_SetDefaults (toOSAP c)) = .ok := by
-  rw [gen_verify_OSAP, gen_setDefaults_OSAP, ofOSAP_toOSAP]; rfl
-
-/-! ### G19 all kinds at once -/
-
-/-- run the generated `SetDefaults` of kind `k` on the union record -/
-def genSetDefaults : Kind → Cfg → Cfg
-  | .HP, c => ofHP (Gen.HPConfig_SetDefaults (toHP c))
-  | .BHP, c => ofBHP (Gen.BHPConfig_SetDefaults (toBHP c))
-  | .DHP, c => ofDHP (Gen.DHPConfig_SetDefaults (toDHP c))
-  | .BDHP, c => ofBDHP (Gen.BDHPConfig_SetDefaults (toBDHP c))
-  | .BUP, c => ofBUP (Gen.BUPConfig_SetDefaults (toBUP c))
-  | .GSAP, c => ofGSAP (Gen.GSAPConfig_SetDefaults (toGSAP c))
-  | .OSAP, c => ofOSAP (Gen.OSAPConfig_SetDefaults (toOSAP c))
-
-/-- run the generated `Verify` of kind `k` on the union record -/
-def genVerify : Kind → Cfg → Gen.Err
-  | .HP, c => Gen.HPConfig_Verify (toHP c)
-  | .BHP, c => Gen.BHPConfig_Verify (toBHP c)
-  | .DHP, c => Gen.DHPConfig_Verify (toDHP c)
-  | .BDHP, c => Gen.BDHPConfig_Verify (toBDHP c)
-  | .BUP, c => Gen.BUPConfig_Verify (toBUP c)
-  | .GSAP, c => Gen.GSAPConfig_Verify (toGSAP c)
-  | .OSAP, c => Gen.OSAPConfig_Verify (toOSAP c)
-
-theorem gen_setDefaults (k : Kind) (c : Cfg) :
-    genSetDefaults k c = setDefaults k (c.restrict k) := by
-  cases k
-  · simp only [genSetDefaults, gen_setDefaults_HP, ofHP_toHP]
-  · simp only [genSetDefaults, gen_setDefaults_BHP, ofBHP_toBHP]
-  · simp only [genSetDefaults, gen_setDefaults_DHP, ofDHP_toDHP]
-  · simp only [genSetDefaults, gen_setDefaults_BDHP, ofBDHP_toBDHP]
-  · simp only [genSetDefaults, gen_setDefaults_BUP, ofBUP_toBUP]
-  · simp only [genSetDefaults, gen_setDefaults_GSAP, ofGSAP_toGSAP]
-  · simp only [genSetDefaults, gen_setDefaults_OSAP, ofOSAP_toOSAP]
-
-theorem gen_verify (k : Kind) (c : Cfg) :
-    genVerify k c = .ok ↔ verify k (c.restrict k) = true := by
-  cases k
-  · simp only [genVerify, gen_verify_HP, ofHP_toHP]
-  · simp only [genVerify, gen_verify_BHP, ofBHP_toBHP]
-  · simp only [genVerify, gen_verify_DHP, ofDHP_toDHP]
-  · simp only [genVerify, gen_verify_BDHP, ofBDHP_toBDHP]
-  · simp only [genVerify, gen_verify_BUP, ofBUP_toBUP]
-  · simp only [genVerify, gen_verify_GSAP, ofGSAP_toGSAP]
-  · simp only [genVerify, gen_verify_OSAP, ofOSAP_toOSAP]
-
-/-! ## decoder_buffer.go: DecoderConfig -/
-
-/-- G20 -/
-theorem gen_decDefaults (ws bs : Int) :
-    Gen.DecoderConfig_SetDefaults ⟨ws, bs⟩ =
-      ⟨if ws = 0 then Facts.decDefWindowSize else ws,
-       if bs = 0 then Facts.decBufFactor * (if ws = 0 then Facts.decDefWindowSize else ws) else bs⟩ := by
-  simp only [Gen.DecoderConfig_SetDefaults, Facts.decDefWindowSize, Facts.decBufFactor]
-  repeat' split
-  all_goals simp_all
-
-/-- G21 -/
-theorem gen_decVerify (c : Gen.DecoderConfig) :
-    Gen.DecoderConfig_Verify c = .ok ↔
-      (1 ≤ c.BufferSize ∧ c.BufferSize ≤ Facts.maxUint32) ∧ (0 ≤ c.WindowSize ∧ c.WindowSize < c.BufferSize) := by
-  simp only [Gen.DecoderConfig_Verify, chk_ok, and_true, Facts.maxUint32]
-
-/-- G22 the model's `decCfg` (defaults, then verification) is the generated pair of functions -/
-theorem gen_decCfg (ws bs : Int) :
-    decCfg ws bs =
-      (let c := Gen.DecoderConfig_SetDefaults ⟨ws, bs⟩
-       if Gen.DecoderConfig_Verify c = .ok then some (c.WindowSize.toNat, c.BufferSize.toNat) else none) := by
-  simp only [gen_decDefaults, gen_decVerify]
-  rfl
-
-end LZ.GenProps
+import LzProofs.GenPropsInts
+import LzProofs.GenPropsHash
+import LzProofs.GenPropsCost
+import LzProofs.GenPropsLen
+import LzProofs.GenPropsCfg
+import LzProofs.GenPropsDec
